@@ -86,6 +86,7 @@ func c04Commands(f *concFix) []crashCmd {
 	}
 	add("set-flags{title,state,claim}", core.R("", "--json", "set", f.T1, "--title", "renamed", "--state", "doing", "--claim", "ag"))
 	add("set--agent{state:doing}", core.R("", "--json", "--agent", "ag", "set", f.T1).In(`{"state":"doing"}`))
+	add("set{title,5KB-body,claim,state}", core.R("", "--json", "set", f.T1).In(jsonStr(map[string]string{"title": "renamed", "body": strings.Repeat("0123456789", 520), "claim": "ag", "state": "blocked"})))
 	add("prune", core.R("", "--json", "prune", "--yes"))
 	add("plan-2", core.R("", "--json", "plan").In(`{"title":"P","tasks":[{"title":"pa"},{"title":"pb","after":["pa"]}]}`))
 	add("plan-3", core.R("", "--json", "plan").In(`{"title":"P","body":"b","tasks":[{"title":"pa"},{"title":"pb","after":["pa"]},{"title":"pc","after":["pa","pb"]}]}`))
@@ -149,6 +150,17 @@ func runC04(env *core.Env) {
 		fx.Must(core.R("", "--json", "compact"))
 		pres = append(pres, fx.Store())
 		preNames = append(preNames, "S_A-compacted+T2-canceled")
+	}
+	{
+		l := newSynLog()
+		for i := 0; i < 45; i++ {
+			id := core.IDFor(int64(300000 + i))
+			l.Create(SynItem{ID: id, Title: fmt.Sprintf("finished %d", i)})
+			l.State(id, "done")
+		}
+		big := f.SA.WithLog(append(append([]byte{}, f.SA.Log()...), l.Bytes()...))
+		pres = append(pres, big)
+		preNames = append(preNames, "S_A+45-finished-tasks")
 	}
 	cmds := c04Commands(f)
 	type job struct {
